@@ -38,7 +38,8 @@ class Gen:
         if k < 0.975 and self.rich and not in_a:
             return r.choice(['<script>var a = "<b>x</b>";</script>', '<style>p > a { color: red }</style>',
                              '<svg width="4"><circle r="2"></circle></svg>', '<select><option>one</option><option>two</option></select>',
-                             '<input type="text" value="v">', '<textarea>t &lt; u</textarea>', '<button>go</button>'])
+                             '<input type="text" value="v">', '<textarea>t &lt; u</textarea>', '<button>go</button>',
+                             '<iframe src="/frame"></iframe>', '<iframe></iframe>'])
         return '<ins>%s</ins>' % self.words(1, 2) if r.random() < 0.5 else '<del>%s</del>' % self.words(1, 2)
 
     def inlines(self):
@@ -65,6 +66,8 @@ class Gen:
             return '<%s>%s</%s>' % (t, ''.join(self.block(depth + 1) for _ in range(r.randint(1, 2))), t)
         if k < 0.93:
             return self.inlines()           # text directly in the parent block / body
+        if k < 0.95:
+            return '<hr>'
         return '<form><p>%s <input name="n" value="1"></p></form>' % self.words(1, 2)
 
     def body(self):
